@@ -211,3 +211,16 @@ pub fn run(rec: &mut Rec, rng: &mut Rng, thorough: bool) {
         }
     }
 }
+
+/// `Headers::try_from` on arbitrary bytes as an op (C03: must not panic).
+pub fn block_case_quiet(rec: &mut Rec, block: &[u8]) {
+    let op = format!("hdrblock {}", hx(block));
+    match catch_unwind(AssertUnwindSafe(|| Headers::try_from(block))) {
+        Err(_) => {
+            rec.oracle_fail("C03", "Headers::try_from panicked", &[op.clone()]);
+            rec.op(&op, "PANIC");
+        }
+        Ok(Ok(h)) => rec.op(&op, &format!("ok {}", show_headers(&h))),
+        Ok(Err(e)) => rec.op(&op, &format!("err {}", show_req_err(&e))),
+    }
+}
